@@ -6,10 +6,15 @@ f, old, new = sys.argv[1:4]
 p = os.path.join('/repo', f)
 s = open(p).read()
 n = s.count(old)
-if n != 1:
+nth = int(os.environ.get('MUT_NTH', '0'))   # MUT_NTH=k: mutate only the k-th occurrence (1-based) when the literal is not unique
+if (nth == 0 and n != 1) or nth > n:
     print('mutate: %d occurrences of %r' % (n, old)); sys.exit(3)
 bk = tempfile.mkdtemp(prefix='evbk.', dir='/tmp'); shutil.copytree('/verif/evidence', bk + '/e')
-open(p, 'w').write(s.replace(old, new))
+if nth:
+    parts = s.split(old); mutated = old.join(parts[:nth]) + new + old.join(parts[nth:])
+else:
+    mutated = s.replace(old, new)
+open(p, 'w').write(mutated)
 try:
     r = subprocess.run(['/verif/check'] + sys.argv[4:], capture_output=True, text=True)
     print(r.stdout[-3000:]); print('rc=%d' % r.returncode)
